@@ -44,6 +44,10 @@ impl Vm {
         };
         match (left, right) {
             (VCell::Bool(left), VCell::Bool(right)) => Ok(left == right),
+            // 0.0 and -0.0 are = but not the same object: they print and divide differently
+            (VCell::Number(Number::Float(left)), VCell::Number(Number::Float(right))) => {
+                Ok(left == right && left.is_sign_negative() == right.is_sign_negative())
+            }
             (VCell::Number(left), VCell::Number(right)) => Ok(left == right
                 && matches!(left, Number::Float(_)) == matches!(right, Number::Float(_))),
             (VCell::Nil, VCell::Nil) => Ok(true),
